@@ -1,8 +1,63 @@
 import NflowsModel.Core.Driver
-/-! Core/Ops/C14 — driver operations used by the C14 correspondence (executable model, Mathlib-free). -/
+import NflowsModel.Core.Norm
+/-! Core/Ops/C14 — driver operations used by the C14 correspondence (executable model, Mathlib-free).
+
+op `c14_hist`: run one history through the ActNorm / BatchNorm *code* machine of `Core/Norm` at `floatX`.
+
+request:  s = [layer]  ("actnorm" | "batchnorm");  i = [features, training0, initialized0];
+          f = [log_scale0 | running_mean0, shift0 | running_var0, unconstrained_weight, bias]  (bit patterns);
+          d = [eps, momentum]  (BatchNorm constructor arguments);
+          "hist" = [{"k":"train"|"eval"|"reload"} | {"k":"fwd"|"inv","shape":[..],"x":[bit patterns, row-major]}]
+response: per step `t`:  s[t] = "" (returned a value) | "-" (no return value) | error kind;
+          f[4t] = outputs (row-major), f[4t+1] = log-abs-det, f[4t+2], f[4t+3] = state vectors after the step
+          (log_scale, shift | running_mean, running_var);
+          i[3t..3t+2] = training, initialized (BatchNorm: 0), ghost counter (initialisations | statistics updates). -/
+open Lean
 namespace NF
+open NF.Norm
+
+def c14Batch (j : Json) : Batch Float :=
+  let g (k : String) : Json := (j.getObjVal? k).toOption.getD Json.null
+  let shape : List Nat := ((jArr (g "shape")).map jNat).toList
+  let xs : List Float := (jArr (g "x")).toList.map (fun b => (Bits.ofBits (jNat b) : Float))
+  let chunk (n : Nat) (k : Nat) (ys : List Float) : List (List Float) :=
+    (List.range k).map (fun i => (ys.drop (i * n)).take n)
+  match shape with
+  | [b, f] => .d2 (chunk f b xs)
+  | [b, c, h, w] => .d4 h w ((chunk (c * h * w) b xs).map (chunk (h * w) c))
+  | _ => .bad shape.length
+
+def c14Op (j : Json) : NOp Float :=
+  let k := ((j.getObjVal? "k").toOption.getD Json.null).getStr?.toOption.getD ""
+  if k == "train" then .train else if k == "eval" then .eval else if k == "reload" then .saveLoadFresh
+  else if k == "fwd" then .fwd (c14Batch j) else .inv (c14Batch j)
+
+def c14Res (r : Res Float) : String × List Nat × List Nat :=
+  match r with
+  | none => ("-", [], [])
+  | some (.error e) => (e.name, [], [])
+  | some (.ok (out, ld)) => ("", bitsOf out.flat, bitsOf ld)
+
+def runC14 (r : Req) : Resp :=
+  let hist : List (NOp Float) := ((jArr ((r.raw.getObjVal? "hist").toOption.getD Json.null)).map c14Op).toList
+  let F := r.nat 0
+  if r.str 0 == "actnorm" then
+    let s0 : ActSt Float := { training := r.flag 1, initialized := r.flag 2, logScale := r.fl 0, shift := r.fl 1, initCount := 0 }
+    let tr := traceM (actStep floatX F) s0 hist
+    { strs := tr.map (fun x => (c14Res x.2).1)
+      fs := tr.flatMap (fun x => [(c14Res x.2).2.1, (c14Res x.2).2.2, bitsOf x.1.logScale, bitsOf x.1.shift])
+      ints := tr.flatMap (fun x => [if x.1.training then 1 else 0, if x.1.initialized then 1 else 0, Int.ofNat x.1.initCount]) }
+  else if r.str 0 == "batchnorm" then
+    let cfg : BNCfg Float := { eps := r.d 0, momentum := r.d 1 }
+    let s0 : BNSt Float := { training := r.flag 1, runMean := r.fl 0, runVar := r.fl 1, uweight := r.fl 2, bias := r.fl 3, updates := 0 }
+    let tr := traceM (bnStep floatX cfg F) s0 hist
+    { strs := tr.map (fun x => (c14Res x.2).1)
+      fs := tr.flatMap (fun x => [(c14Res x.2).2.1, (c14Res x.2).2.2, bitsOf x.1.runMean, bitsOf x.1.runVar])
+      ints := tr.flatMap (fun x => [if x.1.training then 1 else 0, 0, Int.ofNat x.1.updates]) }
+  else { err := some "bad-layer" }
 
 /-- handler for the ops of this property; `none` = not one of mine -/
-def handleC14 (_r : Req) : Option Resp := none
+def handleC14 (r : Req) : Option Resp :=
+  if r.op == "c14_hist" then some (runC14 r) else none
 
 end NF
